@@ -111,6 +111,19 @@ Theorem C18_history : forall ops, forallb (fun o => negb (is_ext_dir o)) ops = t
 Proof. exact history_ok. Qed.
 Print Assumptions C18_history.
 
+(* Between restarts: as long as only API operations run (completions, unfinished downloads, publishes, API and
+   stream deletions, restarts) -- no death, nothing behind the daemon's back -- every blob file present stays
+   recorded as finished at every moment; a start establishes this from ANY state without planted directories.
+   files_recorded s :=  files_only (disk s) /\ forall h, valid_name h -> is_file (disk s) h -> status h = Finished. *)
+Theorem C18_api_keeps_files_recorded : forall ops s, forallb is_api_op ops = true ->
+  files_recorded s -> files_recorded (run s ops).
+Proof. exact run_files_recorded. Qed.
+Print Assumptions C18_api_keeps_files_recorded.
+
+Theorem C18_start_establishes_files_recorded : forall s, files_only (disk s) -> files_recorded (restart s).
+Proof. exact restart_files_recorded. Qed.
+Print Assumptions C18_start_establishes_files_recorded.
+
 (* Reachable states keep the directory names, the table's primary key and the completed set duplicate-free
    (so comparing the model's lists with the implementation's sets / rows is meaningful). *)
 Theorem C18_keys_unique : forall ops,
